@@ -93,7 +93,7 @@ def main():
                     'streaming reader reports, in order' % b.get('files', 0),
             'bound': '%d texts' % b['evaluations'],
             'evaluations': b['evaluations'],
-            'distinct_nontrivial': b['evaluations']})
+            'distinct_nontrivial': b.get('distinct_nontrivial', 0)})
         if b['witness']:
             chk.report_violation('bounded.lexer', {'witness': b['witness']},
                                  True, what=b['witness']['error'])
